@@ -74,7 +74,8 @@ def placement_job(seed):
 
 
 CM_POOL = ['plain', 'two\nlines', "quote ' and \" here", "'; DROP TABLE users; --", '*/ x /*', '{curly} [square] (round)',
-           'Table evil {\n  id int\n}', 'ends with backslash \\', 'CREATE TABLE "x" ("y" int);', 'ü 日本 😀', 'a -- b // c', 'x\n\ny']
+           'Table evil {\n  id int\n}', 'ends with backslash \\', 'CREATE TABLE "x" ("y" int);', 'ü 日本 😀', 'a -- b // c', 'x\n\ny',
+           'ends with a blank ', 'first line  \nsecond line ', 'x  ']
 
 
 # characters Python's str.splitlines() breaks at but DBML / SQL line comments do not: inside a comment they are ordinary
